@@ -156,7 +156,10 @@ fn exec<'a>(kind: &str, it: &'a Item, open: &mut Option<Open<'a>>) -> Res {
 			}
 		}
 		"inc_feed" => {
-			let o = open.as_mut().expect("inc_feed without an open parse");
+			let o = match open.as_mut() {
+				Some(o) => o,
+				None => return Res::Other("no open parse (its beginning failed)".into()),
+			};
 			o.fed += 1;
 			let upto = o.item.built.ev_offs.len() * o.fed / 3;
 			match guard(|| feed(o, upto)) {
@@ -165,7 +168,10 @@ fn exec<'a>(kind: &str, it: &'a Item, open: &mut Option<Open<'a>>) -> Res {
 			}
 		}
 		"inc_finish" => {
-			let mut o = open.take().expect("inc_finish without an open parse");
+			let mut o = match open.take() {
+				Some(o) => o,
+				None => return Res::Other("no open parse (its beginning failed)".into()),
+			};
 			let n = o.item.built.ev_offs.len();
 			let res = guard(|| -> Result<(), String> {
 				feed(&mut o, n)?;
@@ -240,13 +246,17 @@ pub fn cmd_session(a: &Args) {
 	let report: Option<Vec<String>> = a.get("report").map(|s| s.split(',').map(|x| x.to_string()).collect());
 	let reported = |k: &str| report.as_ref().map_or(true, |r| r.iter().any(|x| x == k));
 	// the pool of replays (all finished: Game End present)
+	// (pairs of the same version with different ports, and of the same ports with different versions, occur:
+	// anything the library might remember between calls keyed by too little shows up)
 	let shapes: Vec<(&str, [u8; 3], Vec<&str>, usize, usize, usize)> = vec![
 		("C", [3, 16, 0], vec!["ic", "none", "single", "none"], 4, 1, 2),
+		("C", [3, 16, 0], vec!["single", "single", "single", "ic"], 3, 2, 1),
 		("A", [1, 0, 0], vec!["single", "single", "none", "none"], 3, 0, 0),
+		("A", [1, 0, 0], vec!["none", "single", "none", "ic"], 2, 0, 0),
 		("B", [2, 2, 0], vec!["none", "none", "none", "single"], 5, 0, 0),
-		("C", [3, 7, 0], vec!["single", "single", "single", "ic"], 2, 2, 1),
+		("C", [3, 7, 0], vec!["ic", "none", "single", "none"], 2, 2, 1),
 		("C", [3, 0, 0], vec!["none", "ic", "none", "none"], 0, 0, 0),
-		("A", [0, 1, 0], vec!["single", "none", "single", "none"], 6, 0, 0),
+		("A", [0, 1, 0], vec!["single", "single", "none", "none"], 6, 0, 0),
 	];
 	let pool: Vec<Item> = shapes
 		.iter()
@@ -334,48 +344,113 @@ pub fn cmd_session(a: &Args) {
 	let mut total = 0;
 	for path in a.req("in").split(',') {
 		total += crate::for_each_tagged(path, "SESSION", threads, a.num("stride", 1) as usize, usize::MAX, |idx, v| {
-			let calls: Vec<(String, String)> = v["calls"].as_array().expect("calls").iter().map(|c| (c[0].as_str().unwrap().to_string(), c[1].as_str().unwrap().to_string())).collect();
-			let g1 = idx % n;
-			let g2 = (g1 + 1 + (idx / n) % (n - 1)) % n;
-			let pick = |name: &str| if name == "g1" { g1 } else { g2 };
-			let text: Vec<String> = calls.iter().map(|(k, g)| format!("{}({})", k, g)).collect();
-			sink.count(fnv(format!("{:?}{}{}", text, g1, g2).as_bytes()), calls.iter().any(|(k, _)| k.contains("fail") || k.contains("cut") || k.contains("bad") || k == "inc_drop"));
-			sink.sample(|| json!({"calls": text, "pool": [g1, g2]}));
-			// the whole history on one new thread
-			let found: Option<(usize, String)> = on_new_thread(|| {
-				let mut open: Option<Open> = None;
-				let mut open_game = 0usize;
-				for (j, (k, gname)) in calls.iter().enumerate() {
-					let gi = if k == "inc_begin" { pick(gname) } else if k.starts_with("inc_") { open_game } else { pick(gname) };
-					if k == "inc_begin" {
-						open_game = gi;
-					}
-					let fed_before = open.as_ref().map_or(0, |o| o.fed);
-					let r = exec(k, &pool[gi], &mut open);
-					let key = match k.as_str() {
-						"inc_feed" => format!("inc_feed{}", fed_before + 1),
-						_ => k.clone(),
-					};
-					let want = match k.as_str() {
-						"inc_begin" | "inc_drop" => Res::Unit,
-						_ => fresh[&(gi, key)].clone(),
-					};
-					if let Some(d) = same(k, &r, &want) {
-						if reported(k) {
-							return Some((j, d));
+			// (kind, game name, thread)
+			let calls: Vec<(String, String, usize)> = v["calls"]
+				.as_array()
+				.expect("calls")
+				.iter()
+				.map(|c| (c[0].as_str().unwrap().to_string(), c[1].as_str().unwrap().to_string(), c.get(2).and_then(|t| t.as_u64()).unwrap_or(1) as usize))
+				.collect();
+			let nthreads = calls.iter().map(|c| c.2).max().unwrap_or(1);
+			// with a pair rotating through the pool, and with a pair of the same version and different ports
+			let rot = (idx % n, (idx % n + 1 + (idx / n) % (n - 1)) % n);
+			for (g1, g2) in [rot, [(0usize, 1usize), (1, 0), (2, 3), (3, 2)][idx % 4]] {
+				let text: Vec<String> = calls.iter().map(|(k, g, t)| if nthreads > 1 { format!("t{}:{}({})", t, k, g) } else { format!("{}({})", k, g) }).collect();
+				sink.count(fnv(format!("{:?}{}{}", text, g1, g2).as_bytes()), calls.iter().any(|(k, _, _)| k.contains("fail") || k.contains("cut") || k.contains("bad") || k == "inc_drop"));
+				sink.sample(|| json!({"calls": text, "pool": [g1, g2]}));
+				// every model thread is a new OS thread; "ordered": the calls are made one after the other in the
+				// model's order; "free" (several threads only): each thread makes its own calls, all at once
+				for mode in if nthreads > 1 { vec!["ordered", "free"] } else { vec!["ordered"] } {
+					let results = run_history(&pool, &calls, g1, g2, nthreads, mode == "free");
+					let mut found: Option<(usize, String)> = None;
+					for (j, gi, key, r) in results {
+						let k = calls[j].0.as_str();
+						let want = match k {
+							"inc_begin" | "inc_drop" => Res::Unit,
+							_ => fresh[&(gi, key)].clone(),
+						};
+						if let Some(d) = same(k, &r, &want) {
+							if reported(k) && found.as_ref().map_or(true, |f| j < f.0) {
+								found = Some((j, d));
+							}
 						}
 					}
+					if let Some((j, d)) = found {
+						let kind = if d.contains("panic") { "panic" } else { "mismatch" };
+						sink.report(
+							&viol(
+								"session_history",
+								&format!("call:{},after:{}{}", calls[j].0, if j > 0 { calls[j - 1].0.as_str() } else { "nothing" }, if nthreads > 1 { format!(",threads:{}", mode) } else { String::new() }),
+								kind,
+								format!("history {:?} (pool {} {}): call {} differs from the same call on a fresh thread: {}", text, g1, g2, j + 1, d),
+							),
+							&|| json!({"calls": text, "pool": [g1, g2], "mode": mode, "slp_hex": [crate::util::hex(&pool[g1].built.bytes), crate::util::hex(&pool[g2].built.bytes)]}),
+						);
+						break;
+					}
 				}
-				None
-			});
-			if let Some((j, d)) = found {
-				let kind = if d.contains("panic") { "panic" } else { "mismatch" };
-				sink.report(
-					&viol("session_history", &format!("call:{},after:{}", calls[j].0, if j > 0 { calls[j - 1].0.as_str() } else { "nothing" }), kind, format!("history {:?} (pool {} {}): call {} differs from the same call on a fresh thread: {}", text, g1, g2, j + 1, d)),
-					&|| json!({"calls": text, "pool": [g1, g2], "slp_hex": [crate::util::hex(&pool[g1].built.bytes), crate::util::hex(&pool[g2].built.bytes)]}),
-				);
 			}
 		});
 	}
 	sink.summary(json!({"histories": total, "pool": n}));
+}
+
+/// Makes the calls of a history against the real code, one new OS thread per model thread.  Returns, per call,
+/// (index, pool game used, key of the fresh result to compare with, result).
+fn run_history(pool: &[Item], calls: &[(String, String, usize)], g1: usize, g2: usize, nthreads: usize, free: bool) -> Vec<(usize, usize, String, Res)> {
+	use std::sync::mpsc;
+	let barrier = std::sync::Barrier::new(nthreads + 1);
+	let (res_tx, res_rx) = mpsc::channel::<(usize, usize, String, Res)>();
+	let mut out = vec![];
+	std::thread::scope(|s| {
+		let mut txs: Vec<mpsc::Sender<usize>> = vec![];
+		for _ in 0..nthreads {
+			let (tx, rx) = mpsc::channel::<usize>();
+			txs.push(tx);
+			let res_tx = res_tx.clone();
+			let barrier = &barrier;
+			std::thread::Builder::new()
+				.stack_size(16 << 20)
+				.spawn_scoped(s, move || {
+					let mut open: Option<Open> = None;
+					let mut open_game = 0usize;
+					barrier.wait();
+					while let Ok(j) = rx.recv() {
+						let (k, gname, _) = &calls[j];
+						let named = if gname == "g1" { g1 } else { g2 };
+						let gi = if k == "inc_begin" || !k.starts_with("inc_") { named } else { open_game };
+						if k == "inc_begin" {
+							open_game = gi;
+						}
+						let fed_before = open.as_ref().map_or(0, |o| o.fed);
+						let r = exec(k, &pool[gi], &mut open);
+						let key = match k.as_str() {
+							"inc_feed" => format!("inc_feed{}", fed_before + 1),
+							_ => k.clone(),
+						};
+						if res_tx.send((j, gi, key, r)).is_err() {
+							return;
+						}
+					}
+				})
+				.expect("spawn");
+		}
+		if free {
+			for (j, c) in calls.iter().enumerate() {
+				txs[c.2 - 1].send(j).ok();
+			}
+			barrier.wait();
+			for _ in 0..calls.len() {
+				out.push(res_rx.recv().expect("worker result"));
+			}
+		} else {
+			barrier.wait();
+			for (j, c) in calls.iter().enumerate() {
+				txs[c.2 - 1].send(j).ok();
+				out.push(res_rx.recv().expect("worker result"));
+			}
+		}
+		drop(txs);
+	});
+	out
 }
